@@ -3,6 +3,10 @@
 import json, sys
 pid = sys.argv[1]
 extra = sys.argv[2] if len(sys.argv) > 2 else ""
+import os
+_n = '/verif/lib/notes/%s.txt' % pid
+if os.path.exists(_n):
+    extra = open(_n).read() + "\n" + extra
 prop = None
 for l in open('/verif/properties.jsonl'):
     p = json.loads(l)
